@@ -32,6 +32,9 @@ func runC11(c *Ctx) {
 	objectKeyKindFirst(c, "R14")
 	c.shared("R22", "C08/R3", "exceeding the call depth limit is a fault that stops the run wherever the call is written, a match body included: every frame that is installed is installed by the push primitive, behind its depth test", keyHas("depth"), func(s *Ctx) { c08R3(s, discoverFrameModel(s.P), "R3") })
 	c.shared("R23", "C06/R1", "a stray operator is a syntax error that pre-empts execution: the operator loop of the expression parser is left successfully only when the next token binds too loosely — a token that has a precedence but no infix parselet (`!`) is reported, not taken as the end of the expression", keyHas("loop-exits"), runC06)
+	if es := c.P.LangFunc("(*Evaluator).evalStatement"); es != nil {
+		c.shared("R24", "C07/R7", "an unknown $-variable is a fault in the position of a for-in variable as well: the loop variables are obtained through getVariable, which refuses unknown $-names (not through a helper that declares whatever name it is given)", keyHas("for-in ", "binding-before-body"), func(s *Ctx) { c07ForIn(s, es) })
+	}
 	c.shared("R16", "C13/R6", "a missing statement separator is a syntax error: a statement end is recorded only where a separator, a newline or the closing brace of a block was consumed, and the answer of the statement-end test is never dropped", keyHas("statement-end", "newline-ends", "advance-clears"), c13NewlineFlag)
 	c.shared("R18", "C15/R2", "comparing containers is a fault that contains does not ignore: it returns a verdict only where the comparison of every element looked at succeeded, and the first comparison error is returned at once", keyHas("array.contains", "every-element-compared"), func(s *Ctx) { c15R2(s, nativeMethods(s.P)); c15NestedCalls(s) })
 	c.shared("R21", "C13/R5", "a stray `&` or `|` is a syntax error: the operator tokens are exactly the documented spellings, a single `&` / `|` is not one of them and falls through to the illegal-character error", keyHas("spelling"), c13Operators)
